@@ -247,4 +247,24 @@ example :
   have := congrFun (congrFun h 0) 1
   simp [Matrix.mul_apply, Fin.sum_univ_two] at this
 
+open Matrix in
+/-- **kinetic_mass_spelling**: the energy model accepts the metric as `inverse_mass_matrix=` or as `mass_matrix=`; with the
+mass matrix `M` the velocity is the solution `v` of `M v = p` (however it is obtained: inverse, linear solve, Cholesky solve
+with the FACTOR of `M`), and the kinetic energy `½ p·v` is the one the inverse spelling gives, `kinetic ½ (dense M⁻¹) p`. -/
+theorem kinetic_mass_spelling {n : ℕ} (M Minv : Matrix (Fin n) (Fin n) ℝ) (hinv : Minv * M = 1)
+    (p v : Fin n → ℝ) (hv : M *ᵥ v = p) :
+    kinetic (1 / 2) (.dense fun i j => Minv i j) p = (p ⬝ᵥ v) * (1 / 2) := by
+  have hvel : Minv *ᵥ p = v := by rw [← hv, mulVec_mulVec, hinv, one_mulVec]
+  have : (sumFin fun i => p i * (IMass.dense fun i j => Minv i j).apply p i) = p ⬝ᵥ (Minv *ᵥ p) := by
+    simp [IMass.apply, sumFin_eq_sum, dotProduct, mulVec]
+  rw [kinetic, this, hvel]
+
+/-- diagonal spelling: `mass_matrix` a vector `m` — `½ Σ pᵢ²/mᵢ` -/
+theorem kinetic_mass_spelling_diag {n : ℕ} (m p : Vec ℝ n) :
+    kinetic (1 / 2) (.diag fun i => 1 / m i) p = (∑ i, p i * (p i / m i)) * (1 / 2) := by
+  simp only [kinetic, IMass.apply, sumFin_eq_sum]
+  congr 1
+  refine Finset.sum_congr rfl fun i _ => ?_
+  ring
+
 end TTProps.C16
